@@ -106,18 +106,28 @@ type VerifDatasetInfo struct {
 }
 
 // VerifDatasets lists the catalogue of this node (sorted by id) with its
-// partitions in routing order.
-func (this *DatasetManager) VerifDatasets() []*VerifDatasetInfo {
-	this.datasetsMu.RLock()
+// partitions in routing order. It never blocks: ok is false when one of the
+// locks it needs is held (the harness calls it when every goroutine is
+// blocked, so a held lock means it is held across a blocking operation).
+func (this *DatasetManager) VerifDatasets() (out []*VerifDatasetInfo, ok bool) {
+	if !this.datasetsMu.TryRLock() {
+		return nil, false
+	}
 	defer this.datasetsMu.RUnlock()
-	var out []*VerifDatasetInfo
+	ok = true
 	for id, d := range this.datasets {
 		info := &VerifDatasetInfo{Id: id, Meta: d.meta}
-		d.partitionsMu.RLock()
+		if !d.partitionsMu.TryRLock() {
+			return nil, false
+		}
 		for _, p := range d.partitions {
-			p.raftMu.RLock()
-			loaded := p.raft != nil
-			p.raftMu.RUnlock()
+			loaded := false
+			if p.raftMu.TryRLock() {
+				loaded = p.raft != nil
+				p.raftMu.RUnlock()
+			} else {
+				ok = false
+			}
 			info.Partitions = append(info.Partitions, &VerifPartitionInfo{
 				Id: p.id, NodeIds: append([]uint64(nil), p.nodeIds()...), RaftLoaded: loaded, Len: p.len(), BytesSize: p.bytesSize(), p: p,
 			})
@@ -126,5 +136,5 @@ func (this *DatasetManager) VerifDatasets() []*VerifDatasetInfo {
 		out = append(out, info)
 	}
 	sort.Slice(out, func(i, j int) bool { return bytes.Compare(out[i].Id[:], out[j].Id[:]) < 0 })
-	return out
+	return out, ok
 }
